@@ -13,6 +13,8 @@ from ..engines import reach_sinks, reach_sinks_ctx
 from ..expr import expr_of_operand
 from . import common as cm
 
+MULTI_CONFIG = True
+
 EXPLANATION = (
     "Call-graph reachability over resolved MIR callees (trait calls on type parameters fan out to all "
     "crate impls, closures belong to their parent). For each Result-returning function whose Ok type "
